@@ -150,4 +150,66 @@ theorem loopClient (p : Params) (g : Nat) (gv : Bytes) (hk : isKnownID g = false
   refine (S_numOpt perspectiveClient idMinAckDelay p.minAckDelay (fun m => m / microsecond) _ _ (fun q => { q with minAckDelay := match p.minAckDelay with | some m => some (m / microsecond * microsecond) | none => q.minAckDelay }) (by decide) h18 (fun m hc rest q => by rw [rn_minAck _ rest (by rw [hc] at h18; exact (itemsFit_varintParam _ _ h18).2) (by have := ht.minAck; rw [hc] at this; have h2 : m < 2 ^ 63 := this; have := Nat.div_mul_le_self m microsecond; omega) q, hc]) (fun hc q => by show Params.mk .. = _; rw [hc])).trans ?_
   exact L_nil _ _
 
+
+/-! ### the session ticket -/
+
+/-- the loop state after `UnmarshalFromSessionTicket` has read what `MarshalForSessionTicket` wrote -/
+def stTicket (p : Params) : LoopSt :=
+  (upd (upd (upd (upd (upd (upd (upd (upd (upd { p := p0 }
+      [idBidiLocal]
+      (fun q => { q with initialMaxStreamDataBidiLocal := p.initialMaxStreamDataBidiLocal }) false false)
+      [idBidiRemote]
+      (fun q => { q with initialMaxStreamDataBidiRemote := p.initialMaxStreamDataBidiRemote }) false false)
+      [idUni]
+      (fun q => { q with initialMaxStreamDataUni := p.initialMaxStreamDataUni }) false false)
+      [idInitialMaxData]
+      (fun q => { q with initialMaxData := p.initialMaxData }) false false)
+      [idStreamsBidi]
+      (fun q => { q with maxBidiStreamNum := p.maxBidiStreamNum }) false false)
+      [idStreamsUni]
+      (fun q => { q with maxUniStreamNum := p.maxUniStreamNum }) false false)
+      [idActiveConnectionIDLimit]
+      (fun q => { q with activeConnectionIDLimit := p.activeConnectionIDLimit }) false false)
+      (if p.maxDatagramFrameSize.isSome then [idMaxDatagramFrameSize] else [])
+      (fun q => { q with maxDatagramFrameSize := match p.maxDatagramFrameSize with | some v => some v | none => q.maxDatagramFrameSize }) false false)
+      (if p.enableResetStreamAt then [idResetStreamAt] else [])
+      (fun q => { q with enableResetStreamAt := p.enableResetStreamAt || q.enableResetStreamAt }) false false)
+
+/-- what follows the version number in a session ticket -/
+def ticketTail (p : Params) : List Item :=
+  varintParam idBidiLocal p.initialMaxStreamDataBidiLocal
+  ++ varintParam idBidiRemote p.initialMaxStreamDataBidiRemote
+  ++ varintParam idUni p.initialMaxStreamDataUni
+  ++ varintParam idInitialMaxData p.initialMaxData
+  ++ varintParam idStreamsBidi p.maxBidiStreamNum
+  ++ varintParam idStreamsUni p.maxUniStreamNum
+  ++ varintParam idActiveConnectionIDLimit p.activeConnectionIDLimit
+  ++ (match p.maxDatagramFrameSize with
+      | some v => varintParam idMaxDatagramFrameSize v
+      | none => [])
+  ++ (if p.enableResetStreamAt then [.v idResetStreamAt, .v 0] else [])
+
+theorem ticketItems_eq (p : Params) : ticketItems p = [Item.v marshalingVersion] ++ ticketTail p := by
+  simp only [ticketItems, ticketTail, List.append_assoc]
+  cases p.maxDatagramFrameSize <;> rfl
+
+theorem loopTicket (p : Params) (hv : ValidTicket p) (hfit : itemsFit (ticketItems p) = true) :
+    L perspectiveServer (itemsBytes (ticketTail p)) { p := p0 } = .ok (stTicket p) := by
+  rw [← List.append_nil (itemsBytes _)]
+  unfold ticketItems at hfit
+  unfold ticketTail
+  simp only [itemsFit_append, Bool.and_eq_true] at hfit
+  obtain ⟨⟨⟨⟨⟨⟨⟨⟨⟨hver, h1⟩, h2⟩, h3⟩, h4⟩, h5⟩, h6⟩, h7⟩, h8⟩, h9⟩ := hfit
+  simp only [itemsBytes_append, List.append_assoc]
+  refine (S_num perspectiveServer idBidiLocal p.initialMaxStreamDataBidiLocal _ _ (fun q => { q with initialMaxStreamDataBidiLocal := p.initialMaxStreamDataBidiLocal }) (by decide) h1 (fun rest q => rn_bidiLocal _ rest (itemsFit_varintParam _ _ h1).2 q)).trans ?_
+  refine (S_num perspectiveServer idBidiRemote p.initialMaxStreamDataBidiRemote _ _ (fun q => { q with initialMaxStreamDataBidiRemote := p.initialMaxStreamDataBidiRemote }) (by decide) h2 (fun rest q => rn_bidiRemote _ rest (itemsFit_varintParam _ _ h2).2 q)).trans ?_
+  refine (S_num perspectiveServer idUni p.initialMaxStreamDataUni _ _ (fun q => { q with initialMaxStreamDataUni := p.initialMaxStreamDataUni }) (by decide) h3 (fun rest q => rn_uni _ rest (itemsFit_varintParam _ _ h3).2 q)).trans ?_
+  refine (S_num perspectiveServer idInitialMaxData p.initialMaxData _ _ (fun q => { q with initialMaxData := p.initialMaxData }) (by decide) h4 (fun rest q => rn_maxData _ rest (itemsFit_varintParam _ _ h4).2 q)).trans ?_
+  refine (S_num perspectiveServer idStreamsBidi p.maxBidiStreamNum _ _ (fun q => { q with maxBidiStreamNum := p.maxBidiStreamNum }) (by decide) h5 (fun rest q => rn_streamsBidi _ rest (itemsFit_varintParam _ _ h5).2 (by have := hv.bidi; omega) q)).trans ?_
+  refine (S_num perspectiveServer idStreamsUni p.maxUniStreamNum _ _ (fun q => { q with maxUniStreamNum := p.maxUniStreamNum }) (by decide) h6 (fun rest q => rn_streamsUni _ rest (itemsFit_varintParam _ _ h6).2 (by have := hv.uni; omega) q)).trans ?_
+  refine (S_num perspectiveServer idActiveConnectionIDLimit p.activeConnectionIDLimit _ _ (fun q => { q with activeConnectionIDLimit := p.activeConnectionIDLimit }) (by decide) h7 (fun rest q => rn_cidLimit _ rest (itemsFit_varintParam _ _ h7).2 (by have := hv.cidLimit; omega) q)).trans ?_
+  refine (S_numOpt perspectiveServer idMaxDatagramFrameSize p.maxDatagramFrameSize (fun v => v) _ _ (fun q => { q with maxDatagramFrameSize := match p.maxDatagramFrameSize with | some v => some v | none => q.maxDatagramFrameSize }) (by decide) h8 (fun v hc rest q => by rw [rn_datagram _ rest (by rw [hc] at h8; exact (itemsFit_varintParam _ _ h8).2) q, hc]) (fun hc q => by show Params.mk .. = _; rw [hc])).trans ?_
+  refine (S_rsa perspectiveServer p.enableResetStreamAt _ _).trans ?_
+  exact L_nil _ _
+
 end Uquic.Proofs.Wire
